@@ -495,3 +495,133 @@ theorem doLoad_flow_agree (D : List Nat) (s : St) (re : Bool) (only : Option Nat
           (fun z hz => find_foldl_nodes s.now z (flowTargets rules only) s.nodes (hnn z hz))
 
 end Sentinel.C14
+
+namespace Sentinel.C14
+open Sentinel.Reuse Sentinel.Drv.C14 Sentinel.LA
+
+/-! ### entries in flight (`in` / `out`) -/
+
+/-- the entry in flight under handle `h` -/
+def liveAt (s : St) (h : Nat) : Option (Nat × Nat × Req × Nat) := s.live.find? (·.1 == h)
+
+theorem find_filter_ne {α} (xs : List (Nat × α)) (h z : Nat) :
+    (xs.filter (·.1 != h)).find? (·.1 == z) = if z = h then none else xs.find? (·.1 == z) := by
+  induction xs with
+  | nil => simp
+  | cons a as ih =>
+    by_cases ha : a.1 = h
+    · by_cases hz : z = h
+      · simp [ha, hz, ih]
+      · have : (h == z) = false := by simpa using (Ne.symm hz)
+        simp [ha, hz, ih, List.find?_cons, this]
+    · by_cases hz : z = h
+      · subst hz
+        have : (a.1 == z) = false := by simpa using ha
+        simp [ha, List.find?_cons, this, ih]
+      · by_cases haz : (a.1 == z) = true
+        · simp [ha, hz, List.find?_cons, haz]
+        · have haz' : (a.1 == z) = false := by simpa using haz
+          simp [ha, hz, List.find?_cons, haz', ih]
+
+theorem entry_live (s : St) (y : Nat) (err : Bool) (q : Req) (rt : Nat) : (entry s y err q rt).1.live = s.live := by
+  obtain ⟨_, hw⟩ := enterChecks_spec s y q
+  unfold entry
+  rcases hE : enterChecks s y q with ⟨s1, b, w⟩
+  rw [hE] at hw
+  change WritesAt s s1 y (checksOf s y q) at hw
+  cases b <;> simp [complete, hw.live]
+
+theorem enterLive_spec (s : St) (h y : Nat) (q : Req) :
+    (enterLive s h y q).2 = decisionText (checksOf s y q) ∧
+    Off y s (enterLive s h y q).1 ∧ (enterLive s h y q).1.now = s.now ∧
+    proj (enterLive s h y q).1 y = ((checksOf s y q).c, (checksOf s y q).f, (checksOf s y q).h, some (y, (checksOf s y q).node)) ∧
+    (enterLive s h y q).1.flow.ctls y = (checksOf s y q).f ∧
+    (∀ z, liveAt (enterLive s h y q).1 z =
+      if (checksOf s y q).b = none ∧ z = h then some (h, y, q, s.now) else liveAt s z) := by
+  obtain ⟨h2, hw⟩ := enterChecks_spec s y q
+  unfold enterLive
+  rcases hE : enterChecks s y q with ⟨s1, b, w⟩
+  rw [hE] at h2 hw
+  change WritesAt s s1 y (checksOf s y q) at hw
+  simp only [Prod.mk.injEq] at h2
+  obtain ⟨hb, hwt⟩ := h2
+  simp only []
+  cases b with
+  | some t =>
+    refine ⟨by simp [decisionText, ← hb], hw.off, hw.now, hw.at, by simpa using hw.flow y, ?_⟩
+    intro z
+    simp [← hb, liveAt, hw.live]
+  | none =>
+    refine ⟨by simp [decisionText, ← hb, hwt], ⟨hw.mem, fun z hz => hw.off.other z hz⟩, hw.now, hw.at,
+      by simpa using hw.flow y, ?_⟩
+    intro z
+    simp only [← hb, liveAt, hw.live, true_and]
+    exact find_assoc s.live h z (y, q, s.now)
+
+theorem exitLive_none (s : St) (h : Nat) (err : Bool) (hl : liveAt s h = none) : (exitLive s h err).1 = s := by
+  unfold exitLive
+  unfold liveAt at hl
+  rw [hl]
+
+theorem exitLive_some (s : St) (h : Nat) (err : Bool) (h' x : Nat) (q : Req) (start : Nat)
+    (hl : liveAt s h = some (h', x, q, start)) :
+    Off x s (exitLive s h err).1 ∧ (exitLive s h err).1.now = s.now ∧ (exitLive s h err).1.flow = s.flow ∧
+    proj (exitLive s h err).1 x = ((s.cb.ctls x).map (cbComplete s.now (s.now - start) err), s.flow.ctls x,
+      (s.hot.ctls x).map (fun c => hotConcAdd (-1) (hotExtract c.rule q) c), nodeAt s x) ∧
+    (∀ z, liveAt (exitLive s h err).1 z = if z = h then none else liveAt s z) := by
+  unfold exitLive
+  unfold liveAt at hl
+  rw [hl]
+  simp only []
+  refine ⟨⟨rfl, fun z hz => by simp [proj, complete, Mgr.set, hz, nodeAt]⟩, rfl, rfl, by simp [proj, complete, Mgr.set, nodeAt], ?_⟩
+  intro z
+  simp only [liveAt, complete]
+  exact find_filter_ne s.live h z
+
+theorem Off.refl' (y : Nat) (s : St) : Off y s s := ⟨rfl, fun _ _ => rfl⟩
+
+theorem Agree.step2 {D : List Nat} {a b a' b' : St} {ya yb : Nat} (h : Agree D a b) (ha : Off ya a a') (hb : Off yb b b')
+    (hn : a'.now = b'.now) (hya : ya ∉ D) (hyb : yb ∉ D) : Agree D a' b' := by
+  refine ⟨hn, by rw [ha.mem, hb.mem, h.mem], ?_⟩
+  intro z hz
+  have h1 : z ≠ ya := fun e => hya (e ▸ hz)
+  have h2 : z ≠ yb := fun e => hyb (e ▸ hz)
+  rw [ha.other z h1, hb.other z h2]; exact h.on z hz
+
+theorem closed_enterLive (D : List Nat) (s : St) (hd y : Nat) (q : Req) (h : Closed D s) : Closed D (enterLive s hd y q).1 := by
+  rw [closed_iff] at h ⊢
+  obtain ⟨_, hoff, _, _, hf, _⟩ := enterLive_spec s hd y q
+  intro z hz c hc r hr
+  by_cases hzy : z = y
+  · subst hzy
+    rw [hf] at hc
+    have hm : nodeTgt c ∈ ((checksOf s z q).f).map nodeTgt := List.mem_map_of_mem hc
+    unfold checksOf at hm
+    rw [checks_f_tgt] at hm
+    obtain ⟨c0, hc0, he⟩ := List.mem_map.mp hm
+    exact h z hz c0 hc0 r (he.trans hr)
+  · have := congrArg (fun p => p.2.1) (hoff.other z hzy)
+    simp only [proj] at this
+    rw [this] at hc
+    exact h z hz c hc r hr
+
+theorem closed_exitLive (D : List Nat) (s : St) (hd : Nat) (err : Bool) (h : Closed D s) : Closed D (exitLive s hd err).1 := by
+  rcases hl : liveAt s hd with _ | ⟨h1, x, q, st⟩
+  · rw [exitLive_none s hd err hl]; exact h
+  · obtain ⟨_, _, hf, _, _⟩ := exitLive_some s hd err h1 x q st hl
+    intro y hy c hc
+    rw [hf] at hc
+    exact h y hy c hc
+
+theorem doLoad_live (s : St) (modl : String) (re : Bool) (only : Option Nat) (arg : String) :
+    (doLoad false s modl re only arg).1.live = s.live := by
+  unfold doLoad
+  simp only [Bool.false_and, Bool.false_eq_true, if_false]
+  cases re <;> simp only [if_true, if_false, Bool.false_eq_true] <;>
+    (split_ifs <;> (try rfl) <;> (split <;> (try rfl) <;> (split_ifs <;> rfl)))
+
+/-- the entries in flight on resources of `D` are the same, handle by handle -/
+def LiveRel (D : List Nat) (a b : St) : Prop :=
+  ∀ z e, e.2.1 ∈ D → (liveAt a z = some e ↔ liveAt b z = some e)
+
+end Sentinel.C14
